@@ -14,6 +14,7 @@ CONSTANTS CLimit, CLimitPerAccount, CLifetime, CIdentityCheck,
           StaleEval,  \* TRUE: Add may have evaluated against the previous head
           Blockable,  \* accounts that a blocklist fetch may add
           Record, MaxSteps,
+          Variant,    \* "base" | "fork": which real chain TxDef / Heads are the facts of
           Sample      \* TRUE (simulation only): one random candidate per operation kind, so that wash steps get their share
 
 VARIABLES hidx, hist
@@ -94,17 +95,32 @@ NeverPromoted == \A o \in DOMAIN objs : ~(objs[o].flag /\ objs[o].src = "fill")
 \*   h3  b pays 2940; block 2 contains it           h4  b's tx depending on h3's id
 \*   h5  a's tx expiring with block 2               h6 / h6b  one tx of a signed twice: delegator b / delegator c (same id)
 UTxAll ==
-  ("h1" :> [id |-> "i1", org |-> "a", dlg |-> "none", cost |-> 5040, costs |-> << >>, cap |-> <<0, 1200000, 0>>, prios |-> << >>, priosnw |-> << >>, prio |-> <<0, 1190000, 0>>, prio0 |-> <<0, 1200000, 0>>, ref |-> 0, exp |-> 100, dep |-> "none", typed |-> FALSE]) @@
-  ("h2" :> [id |-> "i2", org |-> "a", dlg |-> "b", cost |-> 2100, costs |-> << >>, cap |-> <<0, 1000000, 0>>, prios |-> << >>, priosnw |-> << >>, prio |-> <<0, 990000, 0>>, prio0 |-> <<0, 1000000, 0>>, ref |-> 3, exp |-> 100, dep |-> "none", typed |-> FALSE]) @@
-  ("h3" :> [id |-> "i3", org |-> "b", dlg |-> "none", cost |-> 2940, costs |-> << >>, cap |-> <<0, 1400000, 0>>, prios |-> << >>, priosnw |-> << >>, prio |-> <<0, 1390000, 0>>, prio0 |-> <<0, 1400000, 0>>, ref |-> 0, exp |-> 100, dep |-> "none", typed |-> FALSE]) @@
-  ("h4" :> [id |-> "i4", org |-> "b", dlg |-> "none", cost |-> 2100, costs |-> << >>, cap |-> <<0, 1000000, 0>>, prios |-> << >>, priosnw |-> << >>, prio |-> <<0, 990000, 0>>, prio0 |-> <<0, 1000000, 0>>, ref |-> 0, exp |-> 100, dep |-> "i3", typed |-> FALSE]) @@
-  ("h5" :> [id |-> "i5", org |-> "a", dlg |-> "none", cost |-> 2100, costs |-> << >>, cap |-> <<0, 1000000, 0>>, prios |-> << >>, priosnw |-> << >>, prio |-> <<0, 990000, 0>>, prio0 |-> <<0, 1000000, 0>>, ref |-> 1, exp |-> 1, dep |-> "none", typed |-> FALSE]) @@
-  ("h6" :> [id |-> "i6", org |-> "a", dlg |-> "b", cost |-> 2520, costs |-> << >>, cap |-> <<0, 1200000, 0>>, prios |-> << >>, priosnw |-> << >>, prio |-> <<0, 1190000, 0>>, prio0 |-> <<0, 1200000, 0>>, ref |-> 0, exp |-> 100, dep |-> "none", typed |-> FALSE]) @@
-  ("h6b" :> [id |-> "i6", org |-> "a", dlg |-> "c", cost |-> 2520, costs |-> << >>, cap |-> <<0, 1200000, 0>>, prios |-> << >>, priosnw |-> << >>, prio |-> <<0, 1190000, 0>>, prio0 |-> <<0, 1200000, 0>>, ref |-> 0, exp |-> 100, dep |-> "none", typed |-> FALSE])
+  ("h1" :> [k |-> "h1", id |-> "i1", org |-> "a", dlg |-> "none", cost |-> 5040, costs |-> << >>, cap |-> <<0, 1200000, 0>>, prios |-> << >>, priosnw |-> << >>, prio |-> <<0, 1190000, 0>>, prio0 |-> <<0, 1200000, 0>>, ref |-> 0, exp |-> 100, dep |-> "none", typed |-> FALSE]) @@
+  ("h2" :> [k |-> "h2", id |-> "i2", org |-> "a", dlg |-> "b", cost |-> 2100, costs |-> << >>, cap |-> <<0, 1000000, 0>>, prios |-> << >>, priosnw |-> << >>, prio |-> <<0, 990000, 0>>, prio0 |-> <<0, 1000000, 0>>, ref |-> 3, exp |-> 100, dep |-> "none", typed |-> FALSE]) @@
+  ("h3" :> [k |-> "h3", id |-> "i3", org |-> "b", dlg |-> "none", cost |-> 2940, costs |-> << >>, cap |-> <<0, 1400000, 0>>, prios |-> << >>, priosnw |-> << >>, prio |-> <<0, 1390000, 0>>, prio0 |-> <<0, 1400000, 0>>, ref |-> 0, exp |-> 100, dep |-> "none", typed |-> FALSE]) @@
+  ("h4" :> [k |-> "h4", id |-> "i4", org |-> "b", dlg |-> "none", cost |-> 2100, costs |-> << >>, cap |-> <<0, 1000000, 0>>, prios |-> << >>, priosnw |-> << >>, prio |-> <<0, 990000, 0>>, prio0 |-> <<0, 1000000, 0>>, ref |-> 0, exp |-> 100, dep |-> "i3", typed |-> FALSE]) @@
+  ("h5" :> [k |-> "h5", id |-> "i5", org |-> "a", dlg |-> "none", cost |-> 2100, costs |-> << >>, cap |-> <<0, 1000000, 0>>, prios |-> << >>, priosnw |-> << >>, prio |-> <<0, 990000, 0>>, prio0 |-> <<0, 1000000, 0>>, ref |-> 1, exp |-> 1, dep |-> "none", typed |-> FALSE]) @@
+  ("h6" :> [k |-> "h6", id |-> "i6", org |-> "a", dlg |-> "b", cost |-> 2520, costs |-> << >>, cap |-> <<0, 1200000, 0>>, prios |-> << >>, priosnw |-> << >>, prio |-> <<0, 1190000, 0>>, prio0 |-> <<0, 1200000, 0>>, ref |-> 0, exp |-> 100, dep |-> "none", typed |-> FALSE]) @@
+  ("h7" :> [k |-> "h7", id |-> "i7", org |-> "a", dlg |-> "none", cost |-> 42, costs |-> << >>, cap |-> <<0, 30000, 0>>, prios |-> << >>, priosnw |-> << >>, prio |-> <<0, 10000, 0>>, prio0 |-> <<0, 0, 0>>, ref |-> 0, exp |-> 100, dep |-> "none", typed |-> TRUE]) @@
+  ("h6b" :> [k |-> "h6b", id |-> "i6", org |-> "a", dlg |-> "c", cost |-> 2520, costs |-> << >>, cap |-> <<0, 1200000, 0>>, prios |-> << >>, priosnw |-> << >>, prio |-> <<0, 1190000, 0>>, prio0 |-> <<0, 1200000, 0>>, ref |-> 0, exp |-> 100, dep |-> "none", typed |-> FALSE])
 UHeads == <<
-  [id |-> "b0", num |-> 1, incl |-> {}, rev |-> {}, energy |-> ("a" :> 7600) @@ ("b" :> 6000) @@ ("c" :> 3000), basefee |-> <<0, 10000, 0>>, bf |-> "10000000000000", refresh |-> FALSE, gala |-> TRUE, synced |-> TRUE],
-  [id |-> "b1", num |-> 2, incl |-> {"i3"}, rev |-> {}, energy |-> ("a" :> 7600) @@ ("b" :> 3060) @@ ("c" :> 3000), basefee |-> <<0, 10000, 0>>, bf |-> "10000000000000", refresh |-> FALSE, gala |-> TRUE, synced |-> TRUE],
-  [id |-> "b2", num |-> 3, incl |-> {"i3"}, rev |-> {}, energy |-> ("a" :> 7600) @@ ("b" :> 3060) @@ ("c" :> 3000), basefee |-> <<0, 10000, 0>>, bf |-> "10000000000000", refresh |-> FALSE, gala |-> TRUE, synced |-> TRUE] >>
+  [id |-> "b0", num |-> 1, incl |-> {}, rev |-> {}, energy |-> ("a" :> 7600) @@ ("b" :> 6000) @@ ("c" :> 3000), payers |-> << >>, basefee |-> <<0, 10000, 0>>, bf |-> "10000000000000", refresh |-> FALSE, gala |-> TRUE, synced |-> TRUE],
+  [id |-> "b1", num |-> 2, incl |-> {"i3"}, rev |-> {}, energy |-> ("a" :> 7600) @@ ("b" :> 3060) @@ ("c" :> 3000), payers |-> << >>, basefee |-> <<0, 10000, 0>>, bf |-> "10000000000000", refresh |-> FALSE, gala |-> TRUE, synced |-> TRUE],
+  [id |-> "b2", num |-> 3, incl |-> {"i3"}, rev |-> {}, energy |-> ("a" :> 7600) @@ ("b" :> 3060) @@ ("c" :> 3000), payers |-> << >>, basefee |-> <<0, 10000, 0>>, bf |-> "10000000000000", refresh |-> FALSE, gala |-> TRUE, synced |-> TRUE] >>
+\* the same transactions on a chain where GALACTICA starts with block 3 (variant "fork")
+FTxAll ==
+  ("h1" :> [k |-> "h1", id |-> "i1", org |-> "a", dlg |-> "none", cost |-> 5040, costs |-> << >>, cap |-> <<0, 1200000, 0>>, prios |-> << >>, priosnw |-> << >>, prio |-> <<0, 1190000, 0>>, prio0 |-> <<0, 1200000, 0>>, ref |-> 0, exp |-> 100, dep |-> "none", typed |-> FALSE]) @@
+  ("h2" :> [k |-> "h2", id |-> "i2", org |-> "a", dlg |-> "b", cost |-> 2100, costs |-> << >>, cap |-> <<0, 1000000, 0>>, prios |-> << >>, priosnw |-> << >>, prio |-> <<0, 990000, 0>>, prio0 |-> <<0, 1000000, 0>>, ref |-> 3, exp |-> 100, dep |-> "none", typed |-> FALSE]) @@
+  ("h3" :> [k |-> "h3", id |-> "i3", org |-> "b", dlg |-> "none", cost |-> 2940, costs |-> << >>, cap |-> <<0, 1400000, 0>>, prios |-> << >>, priosnw |-> << >>, prio |-> <<0, 1390000, 0>>, prio0 |-> <<0, 1400000, 0>>, ref |-> 0, exp |-> 100, dep |-> "none", typed |-> FALSE]) @@
+  ("h4" :> [k |-> "h4", id |-> "i4", org |-> "b", dlg |-> "none", cost |-> 2100, costs |-> << >>, cap |-> <<0, 1000000, 0>>, prios |-> << >>, priosnw |-> << >>, prio |-> <<0, 990000, 0>>, prio0 |-> <<0, 1000000, 0>>, ref |-> 0, exp |-> 100, dep |-> "i3", typed |-> FALSE]) @@
+  ("h5" :> [k |-> "h5", id |-> "i5", org |-> "a", dlg |-> "none", cost |-> 2100, costs |-> << >>, cap |-> <<0, 1000000, 0>>, prios |-> << >>, priosnw |-> << >>, prio |-> <<0, 990000, 0>>, prio0 |-> <<0, 1000000, 0>>, ref |-> 1, exp |-> 1, dep |-> "none", typed |-> FALSE]) @@
+  ("h6" :> [k |-> "h6", id |-> "i6", org |-> "a", dlg |-> "b", cost |-> 2520, costs |-> << >>, cap |-> <<0, 1200000, 0>>, prios |-> << >>, priosnw |-> << >>, prio |-> <<0, 1190000, 0>>, prio0 |-> <<0, 1200000, 0>>, ref |-> 0, exp |-> 100, dep |-> "none", typed |-> FALSE]) @@
+  ("h7" :> [k |-> "h7", id |-> "i7", org |-> "a", dlg |-> "none", cost |-> 42, costs |-> << >>, cap |-> <<0, 30000, 0>>, prios |-> << >>, priosnw |-> << >>, prio |-> <<0, 10000, 0>>, prio0 |-> <<0, 0, 0>>, ref |-> 0, exp |-> 100, dep |-> "none", typed |-> TRUE]) @@
+  ("h6b" :> [k |-> "h6b", id |-> "i6", org |-> "a", dlg |-> "c", cost |-> 2520, costs |-> << >>, cap |-> <<0, 1200000, 0>>, prios |-> << >>, priosnw |-> << >>, prio |-> <<0, 1190000, 0>>, prio0 |-> <<0, 1200000, 0>>, ref |-> 0, exp |-> 100, dep |-> "none", typed |-> FALSE])
+FHeads == <<
+  [id |-> "b0", num |-> 1, incl |-> {}, rev |-> {}, energy |-> ("a" :> 7600) @@ ("b" :> 6000) @@ ("c" :> 3000), payers |-> << >>, basefee |-> <<0, 0, 0>>, bf |-> "0", refresh |-> FALSE, gala |-> FALSE, synced |-> TRUE],
+  [id |-> "b1", num |-> 2, incl |-> {"i3"}, rev |-> {}, energy |-> ("a" :> 7600) @@ ("b" :> 3060) @@ ("c" :> 3000), payers |-> << >>, basefee |-> <<0, 10000, 0>>, bf |-> "10000000000000", refresh |-> FALSE, gala |-> TRUE, synced |-> TRUE],
+  [id |-> "b2", num |-> 3, incl |-> {"i3"}, rev |-> {}, energy |-> ("a" :> 7600) @@ ("b" :> 3060) @@ ("c" :> 3000), payers |-> << >>, basefee |-> <<0, 10000, 0>>, bf |-> "10000000000000", refresh |-> TRUE, gala |-> TRUE, synced |-> TRUE] >>
 Sub(S) == [h \in S |-> UTxAll[h]]
 Tx2 == Sub({"h1", "h2"})
 Tx3 == Sub({"h1", "h2", "h3"})
@@ -115,6 +131,9 @@ TxSame == Sub({"h6", "h6b"})
 TxModes == Sub({"h2", "h6"})        \* both paid by b: affordable together at head 1, not at head 2
 Heads2 == SubSeq(UHeads, 1, 2)
 Heads3 == UHeads
+TxTyped == Sub({"h1", "h7"})          \* a legacy and a dynamic-fee tx of the same account
+FTx == [h \in {"h1", "h7"} |-> FTxAll[h]]
 
-ASSUME PrintT(<<"UNIVERSE", ToJson([txs |-> TxDef, heads |-> Heads, limit |-> CLimit, lpa |-> CLimitPerAccount, lifetime |-> CLifetime])>>)
+ASSUME PrintT(<<"UNIVERSE", ToJson([txs |-> TxDef, heads |-> Heads, limit |-> CLimit, lpa |-> CLimitPerAccount, lifetime |-> CLifetime,
+                                     variant |-> Variant])>>)
 =============================================================================
